@@ -31,7 +31,7 @@ EXHAUSTIVE = {"quick": False, "thorough": False}
 
 NAMES = ["walk", "mkd_rmd", "stor_pasv", "stor_epsv_after", "appe", "retr_pasv", "retr_epsv_after", "retr_rest", "stor_rest", "list",
          "mlsd", "mlsd_dir", "mlst", "rename", "dele", "two_transfers", "pasv_twice", "noconnect", "relogin", "login_pw", "stor_slow",
-         "retr_missing", "stor_unreachable", "misc", "abor_idle", "abor_mid", "retr_huge"]
+         "retr_missing", "stor_unreachable", "misc", "abor_idle", "abor_mid", "retr_huge", "pipelined"]
 
 
 class _T:
